@@ -1,0 +1,31 @@
+//go:build verif
+
+package monitor
+
+// Accessors for the external verification harness of property C19
+// (/verif/harness/cmd/c19). Read-only or thin wrappers around existing
+// unexported entry points; compiled only with -tags verif.
+
+// VerifSinkPort blocks until Listen (started with SinkPort == 0) has bound
+// its port and returns it.
+func (m *Monitor) VerifSinkPort() uint16 { return <-m.sinkPortChan }
+
+// VerifConns returns the number of reporting connections currently registered.
+func (m *Monitor) VerifConns() int {
+	m.mutexConn.Lock()
+	defer m.mutexConn.Unlock()
+	return len(m.conns)
+}
+
+// VerifUpdate is Monitor.update on a measure built from its parts.
+func (m *Monitor) VerifUpdate(name string, value float64, host int) {
+	m.update(newSingleMeasureWithHost(name, value, host))
+}
+
+// VerifBucket is BucketStats.Get on the monitor's buckets.
+func (m *Monitor) VerifBucket(index int) *Stats { return m.buckets.Get(index) }
+
+// VerifUpdate is Stats.Update on a measure built from its parts.
+func (s *Stats) VerifUpdate(name string, value float64) {
+	s.Update(newSingleMeasure(name, value))
+}
